@@ -409,6 +409,8 @@ def tr(stmts, env, cx, result, ind):
         ln = lean_name(name)
         val = tr([s[2]], env, cx, result, ind + 1)
         env2 = dict(env); env2[name] = ln
+        if getattr(cx, "letif_num", False):
+            return f"let {ln} : R :=\n{pad}  ({val});\n{pad}" + tr(rest, env2, cx, result, ind)
         cx.boolvars = getattr(cx, "boolvars", set()) | {name}
         return f"let {ln} : Bool :=\n{pad}  ({val});\n{pad}" + tr(rest, env2, cx, result, ind)
     if k == "exprstmt":
@@ -523,8 +525,9 @@ def translate_fn(src, rust_name, lean_name_, ret, fuel="0", localfns=None, resul
     return translate_body(body, rust_name, lean_name_, params, ret, fuel, localfns, result_var, env0, doc)
 
 
-def translate_body(body, rust_name, lean_name_, params, ret, fuel="0", localfns=None, result_var=None, env0=None, doc=""):
+def translate_body(body, rust_name, lean_name_, params, ret, fuel="0", localfns=None, result_var=None, env0=None, doc="", letif_num=False):
     cx = Ctx(lean_name_, fuel, localfns)
+    cx.letif_num = letif_num
     env = {p: lean_name(p) for p in params}
     if env0:
         env.update(env0)
@@ -710,6 +713,24 @@ def generate_cons_obj(cons_src):
                f"  let ct := centersOf {side(a)} {side(b)};\n"
                f"  {{ from_ := {fields['from']}, to := {fields['to']}, centers := {fields['centers']}, tolerances := {fields['tolerances']}, "
                f"sortingWeight := {fields['sorting_weight']} }}\n")
+    # ---- random_angles: the nested per-joint function with the uniform draw as a parameter, and the six calls
+    body, _ = fn_body(cons_src, "random_angles")
+    outer, nested = strip_nested_fn(body, "random_angle")
+    oflat = " ".join(re.sub(r"//[^\n]*", "", outer).split())
+    want = "[ " + " ".join(f"random_angle(self.from[{i}], self.to[{i}])," for i in range(6)) + " ]"
+    if oflat != want:
+        raise TranslateError("random_angles no longer draws joint i from (from[i], to[i]) for i = 0..5: " + oflat)
+    nb, _ = fn_body(nested, "random_angle")
+    nflat = " ".join(re.sub(r"//[^\n]*", "", nb).split())
+    for a, b in [("let mut rng = rand::thread_rng();", ""), ("rng.gen_range(0.0..(to - from))", "u_draw"), ("rng.gen_range(0.0..range_length)", "u_draw")]:
+        if a not in nflat:
+            raise TranslateError("random_angle no longer contains: " + a)
+        nflat = nflat.replace(a, b)
+    if "rng" in nflat:
+        raise TranslateError("random_angle: another use of the generator: " + nflat)
+    out.append(translate_body(nflat, "random_angle", "randomAngleSrc", ["from", "to", "u_draw"], "R",
+                              doc="the per-joint sampler nested in `random_angles`; `u_draw` stands for the value `gen_range(0.0..len)` returns "
+                                  "(len = to - from, resp. range_length)", letif_num=True))
     return ("/- GENERATED by tools/rs2lean_ctl.py from /repo/src/constraints.rs on every run. Do not edit. -/\n"
             "import OpwVerif.Kin\nset_option linter.unusedVariables false\nnamespace Opw.SrcCons\nopen Opw\nvariable {R : Type} [OpwNum R]\n\n"
             "/-- `compute_centers` on whole joint arrays: `(centers, tolerances)`, joint by joint through the model's `centerTol` -/\n"
